@@ -852,7 +852,14 @@ def r6(ctx):
     ctx.check("R6", f"{f.site()}::output", ok, "writes str(plate.plate_id), or -1 when nothing is eligible", f"writes {outs}")
 
 
-RULE_FUNCS = [r1, r2, r2b, r3, r4, r5, r6]
+def r_bsearch(ctx):
+    """binary searches need a sorted haystack (necessary condition; see common.binary_search_preconditions)"""
+    n = common.binary_search_preconditions(ctx, "R4", ("batchie.scoring.main", "batchie.common", "batchie.data"))
+    if not n:
+        ctx.ok("R4", "binary-search::none", "no np.searchsorted in the anchored modules")
+
+
+RULE_FUNCS = [r1, r2, r2b, r3, r4, r5, r6, r_bsearch]
 
 
 def run(ctx):
